@@ -235,7 +235,12 @@ def edit_pkg(src: Path, pkg: str, n: int):
     appended to a file that holds none of the observed call sites, so that no observed identifier,
     struct shape or call-site offset changes."""
     f = src / EDIT_FILES[pkg]
-    f.write_text(f.read_text() + f"\nvar Edit{n}{pkg.capitalize()} = {n}\n")
+    if pkg == "lib":
+        # the weakest source change there is: a comment (the compiled object stays byte-identical, so only a
+        # salt taken from the build INPUTS moves; one taken from the build output would not)
+        f.write_text(f.read_text() + f"\n// edit {n} of {pkg}\n")
+    else:
+        f.write_text(f.read_text() + f"\nvar Edit{n}{pkg.capitalize()} = {n}\n")
 
 
 # --------------------------------------------------------------------------- observation
